@@ -39,7 +39,8 @@ REQUIRED = ('openings_checked', 'stud_low_card_openings',
             'rank_ties_broken_by_suit', 'exposed_hand_ties',
             'headsup_openings', 'straddle_or_post_layouts',
             'bring_in_posters_checked', 'fractional_blind_openings',
-            'trees_completed', 'explored_nodes')
+            'trees_completed', 'explored_nodes',
+            'forks')
 
 BETTING = ('Folding', 'CheckingOrCalling', 'BringInPosting',
            'CompletionBettingOrRaisingTo')
@@ -147,6 +148,8 @@ def gen_kwargs(rng):
 
 
 def pol_tweak(pol, cfg, rng):
+    if rng.random() < 0.4:
+        pol['fork_p'] = 0.03     # continue on a deepcopy mid-hand
     pol['policy'] = rng.choice(['passive', 'passive', 'uniform', 'aggressive',
                                 'allin'])
     stud = cfg.get('game') in gen.STUD_GAMES or cfg.get('template') == 'stud5'
